@@ -70,6 +70,8 @@ int vrt_holders (const void *mu, int writer);
 /* state snapshots for the lock-step replay: fn writes a one-line canonical description of the watched objects */
 void vrt_set_snapshot (void (*fn) (char *buf, size_t n));
 void vrt_region_name (const void *p, char *buf, size_t n);
+/* called for every successful atomic write (store or CAS) of the code under test: (addr, old, new, file, line) */
+void vrt_set_write_monitor (void (*fn) (volatile void *, uint32_t, uint32_t, const char *, int));
 #ifdef __cplusplus
 }
 #endif
